@@ -487,11 +487,11 @@ func checkC10(c *Ctx, r *Report) {
 	} else {
 		deferK := c.answerConst("Defer")
 		for _, ret := range returnsOf(fn) {
-			k, isC := constInt(ret.Results[0])
+			k, isC := constInt(resOf(ret, 0))
 			if isC && k == deferK {
 				continue
 			}
-			o := r.Add("C10-answer", fnName(fn), "return "+pathOf(ret.Results[0]), c.pos(ret.Pos()))
+			o := r.Add("C10-answer", fnName(fn), "return "+pathOf(resOf(ret, 0)), c.pos(ret.Pos()))
 			good := false
 			for _, cd := range condsAt(ret.Block()) {
 				if strings.HasSuffix(pathOf(cd.V), ".sendOnly") && !cd.Truth {
@@ -805,7 +805,7 @@ func isConfiningPredicate(fn *ssa.Function, needBackslash bool) bool {
 	okAll := true
 	n := 0
 	for _, ret := range returnsOf(fn) {
-		v := ret.Results[0]
+		v := resOf(ret, 0)
 		if b, isC := constBool(v); isC && !b {
 			continue
 		}
